@@ -108,6 +108,23 @@ def gen_csv(rng):
     if has_extra:
         layout.insert(rng.randint(0, len(layout)), ("extra", "precinct"))
     header = [name for _, name in layout]
+    # header cells carry no meaning for the loader (columns are addressed by position): blank, numeric, duplicated or odd labels
+    hstyle = G.wchoice(rng, [("plain", 65), ("blank", 15 if len(layout) > 1 else 0), ("numeric", 10), ("odd", 10)])
+    if hstyle != "plain":
+        odd = rng.sample(["Unnamed: 7", "Choice #1", " rank 1 ", "1st, choice", "rank", "rank", "Unnamed: 0", "weight", "id"], 6)
+        k = 0
+        for i, (typ, _) in enumerate(layout):
+            if typ != "rank":
+                continue
+            k += 1
+            if hstyle == "blank":
+                header[i] = "" if rng.random() < 0.5 else header[i]
+            elif hstyle == "numeric":
+                header[i] = str(k)
+            else:
+                header[i] = odd[k - 1]
+        if all(h == "" for h in header):
+            header[0] = "rank1"
     pool = rng.sample(NAMES, rng.randint(2, 6))
     delim = G.wchoice(rng, [(",", 5), (";", 2), ("|", 2), ("\t", 2)])
     pool = [p for p in pool if delim not in p or rng.random() < 0.5] or ["Ann", "Bob Lee"]
@@ -464,6 +481,10 @@ def execute(case, trace=False):
             faults["names_with_quotes_or_delimiters"] = 1
         if len({tuple(r) for r in case["rows"]}) < len(case["rows"]):
             faults["repeated_rows"] = 1
+        if any(h == "" for h in case["header"]):
+            faults["blank_header_cells"] = 1
+        if len(set(case["header"])) < len(case["header"]):
+            faults["duplicated_header_labels"] = 1
     if case["kind"] == "scot" and case["blank_rows"]:
         faults["blank_rows"] = 1
     for clause, msg, extra in bad:
